@@ -39,6 +39,9 @@ pub fn run(prop: &dyn Prop, a: WorkerArgs) -> i32 {
         return 2;
     }
     galloc::enable();
+    if prop.page_guard(a.tier, a.profile) || std::env::var("VERIF_PAGEGUARD").map_or(false, |v| v == "1") {
+        galloc::set_page_mode(true);
+    }
 
     // hang watchdog
     std::thread::spawn(|| {
